@@ -1,6 +1,7 @@
 import RoaringModel.Lemmas.BitmapMut2
 import RoaringModel.Step32
 import RoaringModel.Lemmas.Canonical
+import RoaringModel.Lemmas.MirrorLemmas
 /-!
 # C01 — 32-bit mutation histories have exact set semantics (property theorems)
 
@@ -168,5 +169,37 @@ example : (∀ op ∈ [Op32.insert 7, .insertRange (.incl 65536) (.excl 70000), 
   intro op hop
   simp only [List.mem_cons, List.mem_nil_iff, or_false] at hop
   rcases hop with rfl | rfl | rfl <;> simp [Op32.Valid, u32Max]
+
+/-! ## Fidelity audit (stores): `BitmapStore::insert_range` with the fused middle loop of the Rust
+
+`notes/fidelity-stores-iter32.md`.  `C01_insertRange` rests on the store kernel `BStore.insertRange`, whose multi-word
+arm sums the middle words and then overwrites them (two passes).  The Rust (bitmap_store.rs:148-151) is ONE loop that
+counts a word and overwrites it; `BStore.insertRangeMirror` (`midLoop`) is that loop.  The compiled driver executes
+`BStore.insertRangeExec` wherever the model calls `BStore.insertRange` (`@[csimp]`, an unconditional equality of
+functions, so every theorem of this file is also a theorem about what the driver executes); on every store satisfying
+`BStore.Inv` — all bitset chunks of a `Bitmap.WF` value: `Store.Inv` — and every `u16` range that is the mirrored
+loop. -/
+
+/-- what the compiled driver runs in place of `BStore.insertRange` -/
+theorem C01_driver_runs_insertRange_mirror : @BStore.insertRange = @BStore.insertRangeExec :=
+  BStore.insertRange_eq_exec
+
+/-- the mirrored `insert_range` is the model definition, is what the driver runs, and refines set insertion of the
+    range: invariant kept, bit `x` set iff `x` in `s..=e` or set before, returns the number of *new* values -/
+theorem C01_bstore_insertRange_mirror (b : BStore) (hb : b.Inv) (s e : Nat) (hse : s ≤ e) (he : e < 65536) :
+    b.insertRangeMirror s e = b.insertRange s e
+    ∧ BStore.insertRangeExec b s e = b.insertRangeMirror s e
+    ∧ (b.insertRangeMirror s e).1.Inv
+    ∧ (∀ x, x < 65536 → (b.insertRangeMirror s e).1.test x = ((decide (s ≤ x) && decide (x ≤ e)) || b.test x))
+    ∧ (b.insertRangeMirror s e).2 = (e - s + 1) - b.countIn s e := by
+  have h := BStore.insertRange_mirror_eq_of_inv b hb s e hse he
+  refine ⟨h, BStore.insertRangeExec_eq_mirror b hb s e hse he, ?_⟩
+  rw [h]
+  exact BStore.insertRange_spec b hb s e hse he
+
+/-- non-vacuity: the empty bitset satisfies the invariant; a range over four words runs the middle loop twice -/
+example : BStore.new.Inv := BStore.inv_new
+example : ((BStore.insertRangeMirror ⟨3, [1, 5, 0, 0, 0]⟩ 2 200).1 = ⟨200, [wMax - 2, wMax, wMax, 511, 0]⟩)
+    ∧ (BStore.insertRangeMirror ⟨3, [1, 5, 0, 0, 0]⟩ 2 200).2 = 197 := by decide +kernel
 
 end Roaring.C01
